@@ -59,10 +59,11 @@ type c10Dumper struct {
 	// range value the displayed bytes are derived from
 	startAtom string // atom of range.Start
 	rangeBase string
+	total     *fw.Poly // bitiox.Len of the reader handed to bitiox.Range (nil if not resolved)
 }
 
 func c10DumpRules(r *fw.Run, p *fw.Program) {
-	ru := r.Rule("C10.dump.addr", "dump row arithmetic: both column writers get LineBytes and the same start offset; first row address + offset == first byte read (with x%l == x-l*(x/l)); row i prints address0 + i*LineBytes for i=1..rows-1; rows == lastByte/l - firstByte/l + 1; bytes read == 8*(lastByte-firstByte+1) up to clamps; an untruncated value ends at its last bit", 12)
+	ru := r.Rule("C10.dump.addr", "dump row arithmetic: both column writers get LineBytes and the same start offset; first row address + offset == first byte read (with x%l == x-l*(x/l)); row i prints address0 + i*LineBytes for i=1..rows-1; rows == lastByte/l - firstByte/l + 1; bytes read == 8*(lastByte-firstByte+1) up to clamps; an untruncated value ends at its last bit; the bits read are clamped to exactly bitLen(root buffer) - firstBit", 13)
 	cands := c10FindByRole(p, "pkg/interp", c10HexNew)
 	if len(cands) != 1 {
 		ru.Undecided("anchor:dumpEx", "", fmt.Sprintf("%d functions in pkg/interp construct a hexpairwriter (expected exactly the tree dumper)", len(cands)))
@@ -80,6 +81,7 @@ func c10DumpRules(r *fw.Run, p *fw.Program) {
 	}
 	d.H, d.A, d.R = hs[0], as[0], rs[0]
 	ru.Ok("anchors:"+fnKey, p.Rel(d.fn.Pos()), "hex writer, ascii writer and byte range resolved")
+	defer c10UnitsRule(r, p, d.fn)
 	env := d.env
 
 	// widths
@@ -233,21 +235,25 @@ func c10DumpRules(r *fw.Run, p *fw.Program) {
 	wantLen := d.E.Sub(d.S).Add(fw.PConst(1)).MulC(8)
 	principal := 0
 	badLeaf := ""
-	for _, lf := range c10PhiLeaves(d.R.Call.Args[2]) {
+	var clamps []*fw.Poly
+	for _, lf := range c10MinLeaves(c10PhiLeaves(d.R.Call.Args[2])) {
 		lp := env.Of(lf.V)
 		switch {
 		case lp.Equal(wantLen):
 			principal++
 		case len(lp.T) == 0:
 			// zero length
-		case lf.Phi != nil && c10ShrinkingEdge(env, lf):
+		case lf.Min || (lf.Phi != nil && c10ShrinkingEdge(env, lf.c10Leaf)):
 			// min-clamp: taken only when the other value is larger
+			clamps = append(clamps, lp)
 		default:
 			badLeaf = lp.String()
 		}
 	}
 	ru.Check(principal >= 1 && badLeaf == "", "range:len", pos(d.R), "bits read == 8*(lastByte - firstByte + 1), only clamped downwards",
 		"bits read for the hex/ascii columns can be "+badLeaf+" (principal 8*(lastByte-firstByte+1) seen "+fmt.Sprint(principal)+"x): bytes are shown that the address rows do not cover, or displayed bytes are missing")
+
+	c10DumpClamp(ru, d, first, clamps)
 
 	// last displayed byte: lastBit/8 where, unless display_bytes truncation applies, lastBit is the value's last bit
 	eBin, _ := c10Strip(eq.X).(*ssa.BinOp)
@@ -305,6 +311,83 @@ func c10DumpRules(r *fw.Run, p *fw.Program) {
 	c10DumpRange(r, d, stopBit, lenP)
 	c10DumpSrc(r, d)
 	c10DumpCols(r, d, firstCall)
+}
+
+// c10MinLeaf is a phi leaf or an operand of a builtin min() among the leaves.
+type c10MinLeaf struct {
+	c10Leaf
+	Min bool // operand of min(): by construction only taken when it is the smaller one
+}
+
+// c10MinLeaves expands leaves that are calls of the builtin min into their operands.
+func c10MinLeaves(in []c10Leaf) []c10MinLeaf {
+	var out []c10MinLeaf
+	var rec func(lf c10Leaf, min bool)
+	rec = func(lf c10Leaf, min bool) {
+		if c, ok := c10Strip(lf.V).(*ssa.Call); ok && fw.IsBuiltinCall(c, "min") {
+			for _, a := range c.Call.Args {
+				for _, sub := range c10PhiLeaves(a) {
+					if sub.Pred == nil {
+						sub.Pred, sub.Phi = lf.Pred, lf.Phi
+					}
+					rec(sub, true)
+				}
+			}
+			return
+		}
+		out = append(out, c10MinLeaf{lf, min})
+	}
+	for _, lf := range in {
+		rec(lf, false)
+	}
+	return out
+}
+
+// c10DumpClamp: the only clamp of the number of bits read is the number of bits the root buffer
+// holds from the first displayed bit on: firstBit + clamp == bitiox.Len(reader handed to bitiox.Range).
+// A larger clamp lets bitiox.Range ask for bits past the end of a buffer that does not end on a
+// byte boundary (the dump aborts instead of showing the value's bytes), a smaller one drops
+// displayed bytes the address rows announce.
+func c10DumpClamp(ru *fw.Rule, d *c10Dumper, first *fw.Poly, clamps []*fw.Poly) {
+	p, env := d.p, d.env
+	pos := p.Rel(d.R.Pos())
+	_, rf, rbase, okR := c10FieldLoad(d.R.Call.Args[0])
+	var total *fw.Poly
+	n := 0
+	for _, lc := range c10CallsTo(d.fn, fw.Mod+"/internal/bitiox.Len") {
+		if lc.Parent() != d.fn || len(lc.Call.Args) != 1 {
+			continue
+		}
+		_, lf, lbase, okL := c10FieldLoad(lc.Call.Args[0])
+		same := lc.Call.Args[0] == d.R.Call.Args[0] || (okR && okL && lf == rf && lbase == rbase)
+		if !same {
+			continue
+		}
+		if ex := c10ExtractOf(lc, 0); ex != nil && lc.Block().Dominates(d.R.Block()) {
+			total = env.Of(ex)
+			n++
+		}
+	}
+	if n == 1 {
+		d.total = total
+	}
+	if len(clamps) == 0 {
+		// no clamp at all: then the bits read must be provably inside the buffer; the dumper does not establish that
+		ru.Fail("range:clamp", pos, "the number of bits read for the hex/ascii columns is never clamped to the bits left in the root buffer: a value in the last, partial byte of a buffer asks for bits past its end")
+		return
+	}
+	if n != 1 || total == nil {
+		ru.Undecided("range:clamp", pos, fmt.Sprintf("the bits read are clamped, but the dumper has %d dominating bitiox.Len calls on the reader it hands to bitiox.Range (expected 1)", n))
+		return
+	}
+	bad := ""
+	for _, c := range clamps {
+		if !c.Add(first).Equal(total) {
+			bad = c.String()
+		}
+	}
+	ru.Check(bad == "", "range:clamp", pos, "bits read are clamped to exactly bitLen(root buffer) - firstBit",
+		"the bits read for the hex/ascii columns are clamped to "+bad+" but from the first displayed bit "+first.String()+" on the root buffer holds "+total.Sub(first).String()+" bits: for buffers that do not end on a byte boundary the dump asks for bits past the end (error instead of bytes) or drops displayed bytes")
 }
 
 // c10DivConst divides every coefficient of p by k; ok=false if one is not divisible.
@@ -368,7 +451,7 @@ func c10ShrinkingEdge(env *fw.PolyEnv, lf c10Leaf) bool {
 // C10.dump.range: what is printed as range/size is the range the bytes come from
 
 func c10DumpRange(r *fw.Run, d *c10Dumper, stopBit, lenP *fw.Poly) {
-	ru := r.Rule("C10.dump.range", "verbose range/size and the truncation marker print the same range the displayed bytes are read from: BitRange(range) in addrbase, Bits(range.Len) in sizebase, marker 'until' start+len-1 with BitsByteCount(len), printed iff the value's last byte is not displayed", 5)
+	ru := r.Rule("C10.dump.range", "verbose range/size and the truncation marker print the same range the displayed bytes are read from: BitRange(range) in addrbase, Bits(range.Len) in sizebase, marker 'until' start+len-1 with BitsByteCount(len), printed iff the value's last byte is not displayed; its end-of-buffer annotation iff the value's last bit is the root buffer's last bit", 5)
 	p, env := d.p, d.env
 	pos := func(v ssa.Value) string { return p.Rel(v.Pos()) }
 	// BitRange(range).StringByteBits(Addrbase)
@@ -404,6 +487,69 @@ func c10DumpRange(r *fw.Run, d *c10Dumper, stopBit, lenP *fw.Poly) {
 	stopByte := c10QuoAtom(stopBit, fw.PConst(8))
 	ru.Check((c10Exact(env, untilCall.Block(), fw.Cmp{P: stopByte.Sub(d.E), Rel: fw.NE}) || c10Exact(env, untilCall.Block(), fw.Cmp{P: stopByte.Sub(d.E), Rel: fw.GT})) && !c10InLoop(untilCall.Block()), "marker:cond", pos(untilCall),
 		"marker printed iff lastBit/8 != last displayed byte", "truncation marker is not guarded by (lastBit/8 != lastDisplayedByte); known here: "+c10FactsString(env, untilCall.Block()))
+	// "(end)" annotation of the marker: a constant text printed next to the marker's address claims that
+	// the value ends where the root buffer ends
+	target := func(v ssa.Value) ssa.Value {
+		seen := map[ssa.Value]bool{}
+		var out ssa.Value
+		var rec func(v ssa.Value)
+		rec = func(v ssa.Value) {
+			if out != nil || v == nil || seen[v] || v.Referrers() == nil {
+				return
+			}
+			seen[v] = true
+			for _, rf := range *v.Referrers() {
+				switch x := rf.(type) {
+				case *ssa.MakeInterface:
+					rec(x)
+				case *ssa.ChangeInterface:
+					rec(x)
+				case *ssa.Store:
+					if ia, ok := x.Addr.(*ssa.IndexAddr); ok && x.Val == v {
+						out = ia.X
+						return
+					}
+				}
+			}
+		}
+		rec(v)
+		return out
+	}
+	if tu := target(untilCall); tu != nil {
+		fw.EachInstr(d.fn, func(ins ssa.Instruction) {
+			ph, ok := ins.(*ssa.Phi)
+			if !ok || target(ph) != tu {
+				return
+			}
+			if bt, ok := ph.Type().Underlying().(*types.Basic); !ok || bt.Info()&types.IsString == 0 {
+				return
+			}
+			if d.total == nil {
+				ru.Undecided("marker:end", pos(untilCall), "the marker carries a conditional annotation but the root buffer's bit length (bitiox.Len) is not resolved")
+				return
+			}
+			good, why := true, ""
+			nAnn := 0
+			for _, lf := range c10PhiLeaves(ph) {
+				txt, isC := c10ConstStr(lf.V)
+				if isC && txt == "" {
+					continue
+				}
+				nAnn++
+				// == or >= (a value never extends past its root buffer)
+				endP := stopBit.Sub(d.total).Add(fw.PConst(1))
+				if !isC || lf.Pred == nil || !(c10Exact(env, lf.Pred, fw.Cmp{P: endP, Rel: fw.EQ}) || c10Exact(env, lf.Pred, fw.Cmp{P: endP, Rel: fw.GE})) {
+					good = false
+					if lf.Pred != nil {
+						why = c10FactsString(env, lf.Pred)
+					}
+				}
+			}
+			if nAnn > 0 {
+				ru.Check(good, "marker:end", pos(untilCall), "the end-of-buffer annotation of the marker is printed iff the value's last bit is the root buffer's last bit", "the end-of-buffer annotation of the truncation marker is not guarded by (value's last bit == bitLen(root buffer)-1); known there: "+why)
+			}
+		})
+	}
 	// size in the marker: BitsByteCount(len) in sizebase
 	found := false
 	for _, c := range c10CallsTo(d.fn, c10PadInt) {
